@@ -60,7 +60,7 @@ def frame_contracts():
     cs.append(V.Contract("celpy.evaluation:Activation.clone", [], name="Activation.clone(): every container and referent of the copy is fresh",
                          invoke=invoke_clone, ret=post_clone, exc={}, cover=False, native=False))
 
-    for names in (["x"], ["a.b"], ["a.b", "x"], ["c.d.e"]):
+    for names in (["x"], ["a.b"], ["a.b", "x"], ["c.d.e"], ["y"], ["y", "x"]):
         def invoke_lv(run, S, names=names):
             S.base = mk_base(run)
             before = graph(S.base)
